@@ -300,6 +300,7 @@ class SymBackend(BackendBase):
         self.ctx = ctx
         self.tier = tier
         self.pending_goals = []  # (Obligation, [Goal])
+        self.refuted = set()  # obligations already refuted (and replayed) on another path of this configuration
 
     def array(self, shape, name, complex_=False, positive=False, lo=None, hi=None, nan_mask=None):
         v = self._draw(shape, complex_, positive, lo, hi)
@@ -384,6 +385,31 @@ class SymBackend(BackendBase):
         return stubs.witness(_data_of(x))
 
     # -- decide everything that was stated on this path --
+    def _residuals(self, goals):
+        ctx = self.ctx
+        worst = 0.0
+        if not ctx.on_witness:
+            return None
+        for g in goals:
+            try:
+                val = ctx.eval(g.p)
+            except (EngineError, ZeroDivisionError, OverflowError):
+                return None
+            val = val.real if isinstance(val, complex) else val
+            try:
+                mag = max(1.0, max((abs(float(c)) * abs(_mono_val(ctx, m)) for m, c in g.p.t.items()), default=1.0))
+            except (EngineError, ZeroDivisionError, OverflowError):
+                return None
+            if g.kind == "eq":
+                res = abs(val) / mag
+            elif g.kind in ("ge", "gt"):
+                res = max(0.0, -val) / mag
+            else:
+                res = max(0.0, val) / mag
+            g.witness_resid = res
+            worst = max(worst, res)
+        return worst
+
     def discharge(self, rounds=2, maxdeg=6, timeout_ms=20000):
         ctx = self.ctx
         for ob, goals, opt in self.pending_goals:
@@ -393,36 +419,27 @@ class SymBackend(BackendBase):
                 continue
             r = opt["rounds"] or rounds
             md = opt["maxdeg"] or maxdeg
-            D.prove(ctx, goals, rounds=r, maxdeg=md, timeout_ms=timeout_ms, products=opt["products"])
+            # cheap first: a goal that is false at the witness needs no saturation effort
+            worst = self._residuals(goals)
+            if worst is not None and worst > 1e-7:
+                D.prove(ctx, goals, rounds=1, maxdeg=md, timeout_ms=timeout_ms, products=False)
+            else:
+                D.prove(ctx, goals, rounds=r, maxdeg=md, timeout_ms=timeout_ms, products=opt["products"])
             npv = sum(1 for g in goals if g.status == "proved")
-            ob.n_proved += npv
             open_goals = [g for g in goals if g.status != "proved"]
-            if open_goals and npv < len(goals) and r < 4:
-                # one more saturation round with a larger degree bound before giving up
-                D.prove(ctx, open_goals, rounds=r + 1, maxdeg=md + 2, timeout_ms=timeout_ms, products=opt["products"])
-                npv2 = sum(1 for g in open_goals if g.status == "proved")
-                ob.n_proved += npv2
+            refuted_elsewhere = ob.name in self.refuted
+            extra = 0
+            while open_goals and (worst is None or worst <= 1e-7) and not refuted_elsewhere and extra < (2 if ctx.on_witness else 1):
+                # more saturation rounds with a larger degree bound before giving up
+                extra += 1
+                D.prove(ctx, open_goals, rounds=r + extra, maxdeg=md + 2 * extra, timeout_ms=timeout_ms, products=opt["products"])
+                npv += sum(1 for g in open_goals if g.status == "proved")
                 open_goals = [g for g in open_goals if g.status != "proved"]
+            ob.n_proved += npv
             if ob.sample is None and goals:
                 ob.sample = D.smt2_sample(ctx, goals[0])
-            # witness residuals of what stayed open
-            worst = 0.0
-            if open_goals and ctx.on_witness:
-                for g in open_goals:
-                    try:
-                        val = ctx.eval(g.p)
-                    except EngineError:
-                        continue
-                    val = val.real if isinstance(val, complex) else val
-                    mag = max(1.0, max((abs(float(c)) * abs(_mono_val(ctx, m)) for m, c in g.p.t.items()), default=1.0))
-                    if g.kind == "eq":
-                        res = abs(val) / mag
-                    elif g.kind in ("ge", "gt"):
-                        res = max(0.0, -val) / mag
-                    else:
-                        res = max(0.0, val) / mag
-                    g.witness_resid = res
-                    worst = max(worst, res)
+            if open_goals:
+                worst = self._residuals(open_goals)
                 ob.resid = worst
             if ob.status == "failed-concrete":
                 continue
@@ -432,7 +449,7 @@ class SymBackend(BackendBase):
             else:
                 ob.status = "open"
                 g0 = max(open_goals, key=lambda g: g.witness_resid or 0)
-                ob.detail = f"{len(open_goals)}/{len(goals)} goals open; e.g. {g0.name}: {g0.detail}; witness residual {worst:.2e}"
+                ob.detail = f"{len(open_goals)}/{len(goals)} goals open; e.g. {g0.name}: {g0.detail}; witness residual {('%.2e' % worst) if worst is not None else 'n/a'}"
         self.pending_goals = []
 
 
